@@ -1,6 +1,7 @@
 package checker
 
 import (
+	"sort"
 	"strings"
 
 	"github.com/jsightapi/jsight-schema-go-library/errors"
@@ -44,7 +45,40 @@ func CheckRecursion(rootTypeName string, rootSchema *schema.Schema) error {
 		rc.visited[rootTypeName] = struct{}{}
 	}
 
-	return rc.check(rootSchema.RootNode(), rootSchema.TypesList())
+	if err := rc.check(rootSchema.RootNode(), rootSchema.TypesList()); err != nil {
+		return err
+	}
+
+	// The walk above leaves out everything behind an optional property, an
+	// array or an alternative of "or", and the types nobody refers to: a chain
+	// of required references which returns to its start may lie there. So each
+	// type is expanded once more, as a root of its own. In the order of the
+	// names: the reported error must not depend on map iteration. The unnamed
+	// types (rule-sets of "or") refer to named types only and are expanded
+	// with them.
+	types := rootSchema.TypesList()
+	names := make([]string, 0, len(types))
+	for name := range types {
+		if !isUnnamed(name) {
+			names = append(names, name)
+		}
+	}
+	sort.Strings(names)
+	for _, name := range names {
+		t := types[name]
+		s := t.Schema()
+		if s == nil || s == rootSchema || s.RootNode() == nil {
+			continue
+		}
+		rc := &recursionChecker{
+			visited: map[string]struct{}{name: {}},
+			path:    []string{name},
+		}
+		if err := rc.check(s.RootNode(), s.TypesList()); err != nil {
+			return err
+		}
+	}
+	return nil
 }
 
 type recursionChecker struct {
